@@ -5,10 +5,14 @@ generateSigmaPoints and the result objects of ``results.py`` with a linear ``Dyn
 stubs whose ``measurement.calculateMeasurement`` returns H x + G s (s = the observation's own sensor vector), and every
 product is compared with a textbook Kalman filter (``verif/oracles/kf_linear.py``) that starts each step from the state
 the filter actually holds (one-step conformance, run in lock-step along every operation sequence of the announced
-depth).  ``physics/noise.py`` builders are compared with their documented closed forms.
+depth, and along every multi-step history of tracking steps - considered by tasking / observed / not observed /
+propagated in two legs - so that nothing a call leaves behind in the filter object can change a later step unseen).
+``physics/noise.py`` builders are compared with their documented closed forms.
 """
 from __future__ import annotations
 
+import functools
+import itertools
 import math
 import os
 import pickle
@@ -36,12 +40,23 @@ RULE = (
     "1..4 observations with dimensions from {1,2,3,4} and total dimension <= 8 (forecast and update; quick tier: all "
     "130 stacks for one tuning per system, a 9-stack core set for the other three), and (B) EVERY operation sequence "
     "predict.(predict|update(no obs)|update(1 obs)|update(3-obs stack)|forecast(stack))^k explored as a tree (quick: "
-    "k <= 2; thorough: k <= 3 for two of six tunings per system, k <= 2 for the rest); after every operation each "
+    "k <= 2; thorough: k <= 3 for two of six tunings per system, k <= 2 for the rest), and (C) step histories on one "
+    "filter object: a step = predict then one body of {nothing | update(no obs) | forecast | forecast.update(no obs) | "
+    "forecast.update(obs) | update(obs)} (thorough adds forecast.forecast.update(no obs | obs)); EVERY history of s "
+    "steps followed by a probe step predict.{nothing | update(obs) | forecast | forecast.update(obs)}, walked as a "
+    "prefix tree so that every operation of every history is judged (quick: s = 2 for one tuning per system = 185 "
+    "sequences of up to 9 operations, s = 1 = 29 sequences of up to 6 operations for the other three; thorough: s = 2 "
+    "with 8 bodies = 336 sequences of up to 11 operations for two of six tunings, s = 1 = 40 sequences for the rest); "
+    "forecasts and observed updates swap between the single observation and the 3-stack with the step parity, so "
+    "forecast and update inside a step and like operations of consecutive steps differ in measurement dimension: "
+    "whatever predict / forecast / update(no obs) / update(obs) leaves in the object meets an operation of every kind "
+    "directly, after a bare predict, and after one whole intermediate step of every body; after every operation each "
     "product of the real filter (pred_x, pred_p, mean_pred_y, innov_cvr, cross_cvr, kalman_gain, est_p, est_x, "
     "innovation, nis, r_matrix, sigma points, time, source, flags) is compared with a textbook Kalman filter started "
     "from the state the filter held before the operation, and the same operation is replayed on a pickled copy whose "
     "result object is applied to a mirror filter that must stay bitwise equal. non-trivial = stack of >= 2 "
-    "observations, or resample on, or a sequence of >= 2 operations (weights: kappa defaulted or alpha < 1; sigma "
+    "observations, or resample on, or a sequence of >= 2 operations, a history prefix already walked by (B) is judged "
+    "again but not counted again (weights: kappa defaulted or alpha < 1; sigma "
     "points: full/ill-conditioned covariance or custom root; noise builders: dt != 1 and magnitude != 1); distinct by "
     "construction (lattice points / tree nodes)."
 )
@@ -116,6 +131,20 @@ def bounds(tier, seed):
         "sequence_depth_note": "every tuning" if tier == "quick" else
         "depth 4 for tuning indices with (index - n - F kind) mod 3 == 0 (two of six per system), depth 3 for the rest",
         "sequence_ops": OPS,
+        "step_history_bodies": [".".join(("P",) + b) for b in (STEP_BODIES_Q if tier == "quick" else STEP_BODIES_T)],
+        "step_history_probe_step": [".".join(("P",) + b) for b in PROBE_BODIES],
+        "step_history_plans": {
+            f"{steps}_steps_then_probe": dict(zip(
+                ("sequences", "longest_in_operations"),
+                _trie_stats(_trie(_histories(tuple(STEP_BODIES_Q if tier == "quick" else STEP_BODIES_T), steps))),
+            ))
+            for steps in (1, 2)
+        },
+        "step_history_note": (
+            "2 steps for tuning index (n + F kind + P kind + 2) mod 4, 1 step for the other three" if tier == "quick" else
+            "2 steps for tuning indices with (index - n - F kind) mod 3 == 1 (two of six per system), 1 step for the rest"
+        ) + "; both resample modes; stacks a (forecast) / b (observed update) on even steps, swapped on odd steps, the "
+        "second forecast of a step takes the update's stack; every prefix is judged step by step",
         "phase_seed": seed,
     }
 
@@ -604,8 +633,11 @@ def mirror_step(ctx, mirror, direct, opk, arg, extra, nontrivial):
 
 
 # ------------------------------------------------------------------------------------------------ sweeps
-def _apply_op(ctx, op, direct, mirror, orc, stacks, extra, nontrivial):
-    """Execute one operation on the directly driven filter, check it, replay it through the result path."""
+def _apply_op(ctx, op, direct, mirror, orc, stacks, extra, nontrivial, *, repeat=False):
+    """Execute one operation on the directly driven filter, check it, replay it through the result path.
+
+    ``repeat``: the sequence ending here was already explored by another family of the same context: it is executed and
+    judged again (it is a prefix of longer sequences) but counted neither as non-trivial nor as a new transition."""
     pre = snapshot(direct)
     if op == "P":
         t1 = ScenarioTime(pre["time"] + DT)
@@ -619,7 +651,7 @@ def _apply_op(ctx, op, direct, mirror, orc, stacks, extra, nontrivial):
     else:
         comp = stacks[op[1]]
         stack = ctx.sys.stack(comp)
-        nt = nontrivial or len(comp) >= 2
+        nt = (nontrivial or len(comp) >= 2) and not repeat
         if op[0] == "U":
             direct.update(stack)
             check_measurement_step(ctx, direct, pre, orc, stack, extra, nt, forecast_only=False)
@@ -628,8 +660,33 @@ def _apply_op(ctx, op, direct, mirror, orc, stacks, extra, nontrivial):
             direct.forecast(stack)
             check_measurement_step(ctx, direct, pre, orc, stack, extra, nt, forecast_only=True)
             mirror_step(ctx, mirror, direct, "F", ctx.sys.stack(comp), extra, nt)
-    ctx.res.transitions += 1
+    if not repeat:
+        ctx.res.transitions += 1
     return orc
+
+
+def _guarded_op(ctx, op, parent, d2, m2, orc, stacks, extra, nontrivial, *, repeat=False):
+    """Apply ``op`` to the copies (d2, m2) of the filters of ``parent``; returns the oracle memory, or None when the
+    branch cannot be expanded (either-way refusal or a violation, both already recorded)."""
+    try:
+        return _apply_op(ctx, op, d2, m2, dict(orc), stacks, extra, nontrivial, repeat=repeat)
+    except np.linalg.LinAlgError as exc:
+        # cholesky refuses an estimate covariance that is not positive definite at working precision.  That is the
+        # documented behaviour, and it is reached legitimately when a (near) perfect measurement of an enormous
+        # prior leaves P- - K S K^T within rounding of singular (loss of definiteness beyond the tolerance was
+        # already judged by cov_psd at the update).  Either-way, branch not expanded.  Anything else is a violation.
+        low = np.tril(parent.est_p) + np.tril(parent.est_p, -1).T
+        dd = np.sqrt(np.abs(np.diag(low)))
+        if op == "P" and kf.scaled_min_eig(low, np.where(dd > 0, dd, 1.0)) < 1e-12:
+            ctx.res.either_way += 1
+            ctx.case("sequence", extra, True, nontrivial=False, field="predict_from_numerically_singular_estimate")
+        else:
+            ctx.case("sequence", extra, False, nontrivial=nontrivial, field=f"exception_{type(exc).__name__}",
+                     observed=str(exc)[:200])
+    except Exception as exc:  # noqa: BLE001
+        ctx.case("sequence", extra, False, nontrivial=nontrivial, field=f"exception_{type(exc).__name__}",
+                 observed=str(exc)[:200])
+    return None
 
 
 def _tree(ctx, direct, mirror, orc, stacks, seq, depth):
@@ -645,27 +702,109 @@ def _tree(ctx, direct, mirror, orc, stacks, seq, depth):
         seq2 = seq + [op]
         extra = {"sequence": ".".join(seq2), "stack_a": list(stacks["a"]), "stack_b": list(stacks["b"])}
         nontrivial = ctx.resample or len(seq2) >= 2
-        try:
-            orc2 = _apply_op(ctx, op, d2, m2, dict(orc), stacks, extra, nontrivial)
-        except np.linalg.LinAlgError as exc:
-            # cholesky refuses an estimate covariance that is not positive definite at working precision.  That is the
-            # documented behaviour, and it is reached legitimately when a (near) perfect measurement of an enormous
-            # prior leaves P- - K S K^T within rounding of singular (loss of definiteness beyond the tolerance was
-            # already judged by cov_psd at the update).  Either-way, branch not expanded.  Anything else is a violation.
-            low = np.tril(direct.est_p) + np.tril(direct.est_p, -1).T
-            dd = np.sqrt(np.abs(np.diag(low)))
-            if op == "P" and kf.scaled_min_eig(low, np.where(dd > 0, dd, 1.0)) < 1e-12:
-                ctx.res.either_way += 1
-                ctx.case("sequence", extra, True, nontrivial=False, field="predict_from_numerically_singular_estimate")
-            else:
-                ctx.case("sequence", extra, False, nontrivial=nontrivial, field=f"exception_{type(exc).__name__}",
-                         observed=str(exc)[:200])
+        orc2 = _guarded_op(ctx, op, direct, d2, m2, orc, stacks, extra, nontrivial)
+        if orc2 is not None:
+            _tree(ctx, d2, m2, orc2, stacks, seq2, depth)
+
+
+# ------------------------------------------------------------------------------------------------ (C) step histories
+# What the estimate agent does to one filter object over consecutive time steps.  A *step* is a prediction followed by
+# one body: nothing (a second prediction follows: propagation in two legs), update with no observations (not tasked),
+# forecast only (considered by tasking, then propagated again), forecast then update with no observations (considered,
+# not observed), forecast then observed update (considered and observed), observed update alone; the thorough tier adds
+# two candidate forecasts before either kind of update.  Every history of ``steps`` such steps is followed by a probe
+# step (a prediction, then nothing | observed update | forecast | forecast and observed update) and the whole family is
+# walked as a prefix tree, so each operation of each history - not only the probe - is judged against the Kalman
+# filter started from the state the filter held, and replayed through the result objects.  Anything one of predict /
+# forecast / update(no obs) / update(obs) leaves behind in the object (a marker, a cached factor, a stale residual or
+# measurement block) has to survive at most one full intermediate step to reach an operation of every kind here.
+STEP_BODIES_Q = [(), ("U0",), ("F",), ("F", "U0"), ("F", "U"), ("U",)]
+STEP_BODIES_T = STEP_BODIES_Q + [("F", "F", "U0"), ("F", "F", "U")]
+PROBE_BODIES = [(), ("U",), ("F",), ("F", "U")]
+
+
+def _step_ops(body, k):
+    """Operations of step number k (0-based).  The stacks swap with the step parity: on even steps forecasts take the
+    single observation (a) and observed updates the 3-observation stack (b), on odd steps the other way round, and the
+    second forecast of a step takes the update's stack: forecast and update inside a step, and like operations of
+    consecutive steps, never have the same measurement dimension (a block kept from the earlier call cannot fit)."""
+    first, second = ("a", "b") if k % 2 == 0 else ("b", "a")
+    out, forecasts = ["P"], 0
+    for letter in body:
+        if letter == "F":
+            out.append("F" + (first if forecasts == 0 else second))
+            forecasts += 1
+        elif letter == "U":
+            out.append("U" + second)
+        else:
+            out.append("U0")
+    return out
+
+
+@functools.lru_cache(maxsize=None)
+def _histories(bodies, steps):
+    """Every history of ``steps`` steps with bodies from ``bodies`` followed by one probe step, as tuples of operations
+    (the prediction of step 0 is the root of the exploration and is left out)."""
+    out = []
+    for combo in itertools.product(bodies, repeat=steps):
+        for probe in PROBE_BODIES:
+            ops = []
+            for k, body in enumerate(combo + (probe,)):
+                ops += _step_ops(body, k)
+            out.append(tuple(ops[1:]))
+    return out
+
+
+def _trie(seqs):
+    root: dict = {}
+    for s in seqs:
+        node = root
+        for op in s:
+            node = node.setdefault(op, {})
+    return root
+
+
+def _trie_stats(node, depth=1):
+    """(number of nodes below this one, length in operations of the longest sequence incl. the root prediction)"""
+    count, longest = 0, depth
+    for child in node.values():
+        c, l = _trie_stats(child, depth + 1)
+        count += 1 + c
+        longest = max(longest, l)
+    return count, longest
+
+
+def _history_plan(tier, n, fk, pk, ti):
+    """(step bodies, number of steps before the probe step) for tuning index ti of a system: two steps for one tuning
+    per system in the quick tier (rotating with n, F kind and P kind; on a linear system nothing here depends on the
+    tuning) and for two of the six in the thorough tier (the ones after the depth-4 tunings), one step for the others."""
+    if tier == "quick":
+        return tuple(STEP_BODIES_Q), 2 if ti == (n + fk + pk + 2) % len(TUNINGS_Q) else 1
+    return tuple(STEP_BODIES_T), 2 if (ti - n - fk) % 3 == 1 else 1
+
+
+def _walk(ctx, direct, mirror, orc, stacks, seq, node, tree_depth):
+    """Depth-first walk of the prefix tree ``node`` of step histories below the sequence ``seq``."""
+    if not node:
+        return
+    blob = pickle.dumps((direct, mirror))
+    for op, child in node.items():
+        d2, m2 = pickle.loads(blob)
+        seq2 = seq + [op]
+        # a sequence that explorer (B) of this context has walked already is executed and judged again (it is a prefix
+        # of the longer ones) but not counted again
+        repeat = len(seq2) <= tree_depth and all(o in OPS for o in seq2)
+        extra = {"sequence": ".".join(seq2), "family": "step_history", "stack_a": list(stacks["a"]),
+                 "stack_b": list(stacks["b"])}
+        orc2 = _guarded_op(ctx, op, direct, d2, m2, orc, stacks, extra, not repeat, repeat=repeat)
+        if orc2 is None:
             continue
-        except Exception as exc:  # noqa: BLE001
-            ctx.case("sequence", extra, False, nontrivial=nontrivial, field=f"exception_{type(exc).__name__}",
-                     observed=str(exc)[:200])
-            continue
-        _tree(ctx, d2, m2, orc2, stacks, seq2, depth)
+        if not repeat:
+            ctx.res.states += 1
+            ctx.res.traces += 1
+            ctx.res.extra["operation_sequences"] = ctx.res.extra.get("operation_sequences", 0) + 1
+            ctx.res.extra["step_history_sequences"] = ctx.res.extra.get("step_history_sequences", 0) + 1
+        _walk(ctx, d2, m2, orc2, stacks, seq2, child, tree_depth)
 
 
 def _seq_stacks(n, seed):
@@ -718,6 +857,9 @@ def _run_lin(res, item):
             extra = {"sequence": "P", "stack_a": list(stacks["a"]), "stack_b": list(stacks["b"])}
             orc = _apply_op(ctx, "P", direct, mirror, {}, stacks, extra, resample)
             _tree(ctx, direct, mirror, orc, stacks, ["P"], _depth(tier, n, fk, ti))
+            # ---------------- (C) every step history of the plan, as a prefix tree rooted at the same prediction
+            bodies, steps = _history_plan(tier, n, fk, pk, ti)
+            _walk(ctx, direct, mirror, orc, stacks, ["P"], _trie(_histories(bodies, steps)), _depth(tier, n, fk, ti))
 
 
 # ------------------------------------------------------------------------------------------------ weights
